@@ -7,6 +7,10 @@ open W2c2Verif Model
 structure EmitSession where
   names : Names := {}
   ctx : Ctx := {}
+  /-- bodies of the defined functions seen so far (function index, declared locals, body) -/
+  bodies : List (Nat × List Gen.VT × List EInstr) := []
+  /-- table 0 after element initialisation (`E elem`) -/
+  table : List (Option Nat) := []
   deriving Inhabited
 
 def vtOfChar : Char → Option Gen.VT
@@ -140,6 +144,7 @@ def emitCmd (sess : EmitSession) (ws : List String) : Option (EmitSession × Str
       | some ft =>
         let params := ft.params.map vtOfW
         let result := ft.results.head?.map vtOfW
+        let sess := { sess with bodies := sess.bodies ++ [(fi, ls, is)] }
         match compileFunc sess.ctx params ls result is with
         | .ok cf => some (sess, "text " ++ oneLine (renderFunc sess.names decPlaceholder fi cf))
         | .error e => some (sess, "err " ++ e)
